@@ -134,6 +134,14 @@ def run(tier, seed):
                     kw = "(%s)" % ", ".join("%s=%s" % (p_, rng.choice(["0.5", "0.125", "3", "1.75", "7"])) for p_ in ps)
             d = os.path.join(scratch, "I%d" % i)
             os.makedirs(d)
+            if i % 5 == 0:
+                # the included program itself includes a file by a relative path (every process, whatever its working directory,
+                # must find the same file: the one next to the including file)
+                os.makedirs(os.path.join(d, "inner"))
+                open(os.path.join(d, "inner", "leaf.xbb"), "w").write("name leaf\nversion 1.0\n\nZgate(0.25) | %d\n" % modes[0])
+                sub = sub.replace("version 1.0\n", 'version 1.0\ninclude "inner/leaf.xbb"\n', 1) + "leaf | %d\n" % modes[0]
+                os.makedirs(os.path.join(scratch, "elsewhere", "inner"), exist_ok=True)
+                open(os.path.join(scratch, "elsewhere", "inner", "leaf.xbb"), "w").write("name leaf\nversion 1.0\n\nXgate(0.75) | %d\n" % modes[0])
             open(os.path.join(d, "sub.xbb"), "w").write(sub)
             call = list(range(len(modes)))
             rng.shuffle(call)
@@ -143,7 +151,9 @@ def run(tier, seed):
             if i % 3 == 0:
                 # a script that merely uses an operation called like the included program
                 items.append({"kind": "loads", "text": "name plain\nversion 1.0\n\nsub | [%s]\nVac | 0\n" % ", ".join(map(str, call))})
-        results = subproc.run_many([(items if j % 2 == 0 else items[::-1], s, None) for j, s in enumerate(seeds)])
+        os.makedirs(os.path.join(scratch, "elsewhere"), exist_ok=True)
+        cwds = [None, scratch, os.path.join(scratch, "elsewhere"), os.path.join(scratch, "I0")]      # "every process": also its working directory
+        results = subproc.run_many([(items if j % 2 == 0 else items[::-1], s, cwds[j % len(cwds)]) for j, s in enumerate(seeds)])
         results = [r if j % 2 == 0 else r[::-1] for j, r in enumerate(results)]
         for i in range(len(items)):
             base = results[0][i]
@@ -157,7 +167,7 @@ def run(tier, seed):
                                     {"check": "order", "text": items[i]["text"], "seeds": [seeds[0], s], "main": open(items[i - 1]["path"]).read(),
                                      "sub": open(os.path.join(os.path.dirname(items[i - 1]["path"]), "sub.xbb")).read()})
                         break
-                    res.violate("applying an included program depends on PYTHONHASHSEED (%s vs %s)" % (seeds[0], s),
+                    res.violate("applying an included program depends on the process (PYTHONHASHSEED %s vs %s; the two processes also differ in working directory and load order)" % (seeds[0], s),
                                 {"check": "include-seeds", "main": open(items[i]["path"]).read(), "sub": open(os.path.join(os.path.dirname(items[i]["path"]), "sub.xbb")).read(), "seeds": [seeds[0], s]})
                     break
         # "every run": the same file loaded again and again in ONE process (after 0, 1 or 2 other template instantiations) gives
